@@ -49,6 +49,10 @@ func (w *Worker) Mine(ctx context.Context, data []byte, targetScore uint64) (uin
 		return 0, nil
 	}
 
+	// validate the target (this panics on overflow) before anything is started
+	sufficientTrailing := sufficientTrailingZeros(data, targetScore)
+	target := targetHash(data, targetScore)
+
 	var (
 		done    uint32
 		counter uint64
@@ -71,9 +75,6 @@ func (w *Worker) Mine(ctx context.Context, data []byte, targetScore uint64) (uin
 			return
 		}
 	}()
-
-	sufficientTrailing := sufficientTrailingZeros(data, targetScore)
-	target := targetHash(data, targetScore)
 
 	workerWidth := math.MaxUint64 / uint64(w.numWorkers)
 	for i := 0; i < w.numWorkers; i++ {
@@ -116,7 +117,7 @@ func (w *Worker) Mine(ctx context.Context, data []byte, targetScore uint64) (uin
 // ⌊ maxHash / h ⌋ ≥ ⌊ 3^243 / 3^(243 - 𝑠) ⌋ = ⌊ 3^𝑠 ⌋ = 3^𝑠 ≥ 𝑙·𝑥
 func sufficientTrailingZeros(data []byte, targetScore uint64) int {
 	// assure that (len(data)+nonceBytes) * targetScore <= MaxUint64
-	if (math.MaxUint64-1)/(uint64(len(data)+nonceBytes))+1 < targetScore {
+	if math.MaxUint64/uint64(len(data)+nonceBytes) < targetScore {
 		panic("pow: invalid target score")
 	}
 	lx := uint64(len(data)+nonceBytes) * targetScore
